@@ -81,6 +81,23 @@ theorem C03_main {d : Doc} (wf : WF d) (cfg : ECfg) (hns : cfg.nsIface = true) (
   PosSem.C03_main wf cfg hns hinj regexOk limit a ha q hq f hag st o hb c hc
 
 open XPathV.PathSem XPathV.PredSem XPathV.PosSem in
+/-- `C03_main` without the `HashInj` hypothesis (it is a theorem now: `hashInj_holds`; the side
+condition left is "no element has two attributes with the same prefix, name and value") -/
+theorem C03_main_unconditional {d : Doc} (wf : WF d) (cfg : ECfg) (hns : cfg.nsIface = true) (hattr : AttrTriplesDistinct d)
+    (regexOk : RegexOk) (limit : Nat) (a : AxisInfo) (ha : a.axis = "child") (q : Ast) (hq : Frag true q)
+    (f : PosForm) (hag : f.Agree F d.length) (st : BState) (o : BOut)
+    (hb : build regexOk limit true false (.filter (.axis a q) f.ast) {} st = .ok o)
+    (c : Ref) (hc : validRef d c = true) :
+    ∃ out ns g origins g0, sel (F := F) d cfg o.q c = .ok out ∧
+      Spec.eval (F := F) d (.filter (.axis a q) f.ast) ⟨c, 1, 1⟩ = .ok (.val (.nodes ns) g) ∧
+      Spec.eval (F := F) d q ⟨c, 1, 1⟩ = .ok (.val (.nodes origins) g0) ∧
+      (∀ x, x ∈ refs out ↔ x ∈ ns) ∧
+      (∀ x, x ∈ ns ↔ ∃ p ∈ origins, ∃ k, (childCands d cfg a p)[k]? = some x ∧
+        PosForm.specKeep F f (k + 1) (childCands d cfg a p).length = true) :=
+  C03_main wf cfg hns (PathSem.hashInj_holds wf hattr cfg) regexOk limit a ha q hq f hag st o hb c
+    hc
+
+open XPathV.PathSem XPathV.PredSem XPathV.PosSem in
 /-- **C03 on natural numbers**: under `NumOK` (the literal denotes `n`; naturals up to `d.length`
 are embedded faithfully in the number algebra) the nodes returned are the candidates whose position
 `k` satisfies `k = n` / `k op n` / `k = size` / `k + n = size`, `size` = number of candidates of the
@@ -99,6 +116,23 @@ theorem C03_on_naturals {d : Doc} (wf : WF d) (cfg : ECfg) (hns : cfg.nsIface = 
   PosSem.C03_main_nat wf cfg hns hinj regexOk limit a ha q hq f n hnum st o hb c hc
 
 open XPathV.PathSem XPathV.PredSem XPathV.PosSem in
+/-- `C03_on_naturals` without the `HashInj` hypothesis (it is a theorem now: `hashInj_holds`; the side
+condition left is "no element has two attributes with the same prefix, name and value") -/
+theorem C03_on_naturals_unconditional {d : Doc} (wf : WF d) (cfg : ECfg) (hns : cfg.nsIface = true) (hattr : AttrTriplesDistinct d)
+    (regexOk : RegexOk) (limit : Nat) (a : AxisInfo) (ha : a.axis = "child") (q : Ast) (hq : Frag true q)
+    (f : PosForm) (n : Nat) (hnum : f.NumOK F n d.length) (st : BState) (o : BOut)
+    (hb : build regexOk limit true false (.filter (.axis a q) f.ast) {} st = .ok o)
+    (c : Ref) (hc : validRef d c = true) :
+    ∃ out ns g origins g0, sel (F := F) d cfg o.q c = .ok out ∧
+      Spec.eval (F := F) d (.filter (.axis a q) f.ast) ⟨c, 1, 1⟩ = .ok (.val (.nodes ns) g) ∧
+      Spec.eval (F := F) d q ⟨c, 1, 1⟩ = .ok (.val (.nodes origins) g0) ∧
+      (∀ x, x ∈ refs out ↔ x ∈ ns) ∧
+      (∀ x, x ∈ ns ↔ ∃ p ∈ origins, ∃ k, (childCands d cfg a p)[k]? = some x ∧
+        f.natKeep n (k + 1) (childCands d cfg a p).length = true) :=
+  C03_on_naturals wf cfg hns (PathSem.hashInj_holds wf hattr cfg) regexOk limit a ha q hq f n hnum
+    st o hb c hc
+
+open XPathV.PathSem XPathV.PredSem XPathV.PosSem in
 /-- **followed by boolean predicates** `q/child::a[f][b1]…[bk]`: per input node, the candidates
 whose proximity position satisfies `f` and on which every `bi` holds; the oracle agrees -/
 theorem C03_then_boolean_predicates {d : Doc} (wf : WF d) (cfg : ECfg) (hns : cfg.nsIface = true)
@@ -108,6 +142,18 @@ theorem C03_then_boolean_predicates {d : Doc} (wf : WF d) (cfg : ECfg) (hns : cf
     (hb : build regexOk limit true false (stackAst (.filter (.axis a q) f.ast) bs) {} st = .ok o) :
     ∃ qi, ∀ c, validRef d c = true → PosChainOK F d cfg a f bs o.q qi q ⟨c, 1, 1⟩ :=
   PosSem.C03_chain wf cfg hns hinj regexOk limit a ha q hq f hag bs hbs st o hb
+
+open XPathV.PathSem XPathV.PredSem XPathV.PosSem in
+/-- `C03_then_boolean_predicates` without the `HashInj` hypothesis (it is a theorem now: `hashInj_holds`; the side
+condition left is "no element has two attributes with the same prefix, name and value") -/
+theorem C03_then_boolean_predicates_unconditional {d : Doc} (wf : WF d) (cfg : ECfg) (hns : cfg.nsIface = true)
+    (hattr : AttrTriplesDistinct d) (regexOk : RegexOk) (limit : Nat) (a : AxisInfo) (ha : a.axis = "child")
+    (q : Ast) (hq : Frag true q) (f : PosForm) (hag : f.Agree F d.length) (bs : List Ast)
+    (hbs : ∀ b ∈ bs, Frag false b) (st : BState) (o : BOut)
+    (hb : build regexOk limit true false (stackAst (.filter (.axis a q) f.ast) bs) {} st = .ok o) :
+    ∃ qi, ∀ c, validRef d c = true → PosChainOK F d cfg a f bs o.q qi q ⟨c, 1, 1⟩ :=
+  C03_then_boolean_predicates wf cfg hns (PathSem.hashInj_holds wf hattr cfg) regexOk limit a ha q
+    hq f hag bs hbs st o hb
 
 open XPathV.PathSem XPathV.PredSem XPathV.PosSem in
 /-- with a flat input path the *sequence* of the built plan is the oracle's document-ordered list -/
@@ -120,6 +166,20 @@ theorem C03_flat_input_exact {d : Doc} (wf : WF d) (cfg : ECfg) (hns : cfg.nsIfa
       Spec.eval (F := F) d (.filter (.axis a q) f.ast) ⟨c, 1, 1⟩ = .ok (.val (.nodes ns) g) ∧
       refs out = ns :=
   PosSem.C03_main_exact wf cfg hns hinj regexOk limit a ha q hq f hag st o hb c hc
+
+open XPathV.PathSem XPathV.PredSem XPathV.PosSem in
+/-- `C03_flat_input_exact` without the `HashInj` hypothesis (it is a theorem now: `hashInj_holds`; the side
+condition left is "no element has two attributes with the same prefix, name and value") -/
+theorem C03_flat_input_exact_unconditional {d : Doc} (wf : WF d) (cfg : ECfg) (hns : cfg.nsIface = true)
+    (hattr : AttrTriplesDistinct d) (regexOk : RegexOk) (limit : Nat) (a : AxisInfo) (ha : a.axis = "child") (q : Ast)
+    (hq : q = .none ∨ ArithSem.FlatPath q) (f : PosForm) (hag : f.Agree F d.length) (st : BState) (o : BOut)
+    (hb : build regexOk limit true false (.filter (.axis a q) f.ast) {} st = .ok o)
+    (c : Ref) (hc : validRef d c = true) :
+    ∃ out ns g, sel (F := F) d cfg o.q c = .ok out ∧
+      Spec.eval (F := F) d (.filter (.axis a q) f.ast) ⟨c, 1, 1⟩ = .ok (.val (.nodes ns) g) ∧
+      refs out = ns :=
+  C03_flat_input_exact wf cfg hns (PathSem.hashInj_holds wf hattr cfg) regexOk limit a ha q hq f hag
+    st o hb c hc
 
 open XPathV.PathSem XPathV.PredSem XPathV.PosSem in
 /-- **`(P)[n]` for a flat path `P`, through the builder**: exactly the `n`-th node of `P` in
@@ -137,6 +197,24 @@ theorem C03_parenthesised_nth {d : Doc} (wf : WF d) (cfg : ECfg) (hns : cfg.nsIf
         Spec.eval (F := F) d (.filter (.group pa) (.num lex)) ⟨c, 1, 1⟩ =
           .ok (.val (.nodes (ns[n - 1]?).toList) none)) :=
   paren_flat_nth wf cfg hns hinj regexOk limit sdf pa hp lex n N hn hlit st o hb c hc
+
+open XPathV.PathSem XPathV.PredSem XPathV.PosSem in
+/-- `C03_parenthesised_nth` without the `HashInj` hypothesis (it is a theorem now: `hashInj_holds`; the side
+condition left is "no element has two attributes with the same prefix, name and value") -/
+theorem C03_parenthesised_nth_unconditional {d : Doc} (wf : WF d) (cfg : ECfg) (hns : cfg.nsIface = true)
+    (hattr : AttrTriplesDistinct d) (regexOk : RegexOk) (limit : Nat) (sdf : Bool) (pa : Ast)
+    (hp : ArithSem.FlatPath pa) (lex : String) (n N : Nat) (hn : 1 ≤ n) (hlit : LitIsNat F lex n N)
+    (st : BState) (o : BOut)
+    (hb : build regexOk limit true sdf (.filter (.group pa) (.num lex)) {} st = .ok o)
+    (c : Ref) (hc : validRef d c = true) :
+    ∃ out ns g, sel (F := F) d cfg o.q c = .ok out ∧
+      Spec.eval (F := F) d pa ⟨c, 1, 1⟩ = .ok (.val (.nodes ns) g) ∧
+      (ns.length ≤ N →
+        refs out = (ns[n - 1]?).toList ∧
+        Spec.eval (F := F) d (.filter (.group pa) (.num lex)) ⟨c, 1, 1⟩ =
+          .ok (.val (.nodes (ns[n - 1]?).toList) none)) :=
+  C03_parenthesised_nth wf cfg hns (PathSem.hashInj_holds wf hattr cfg) regexOk limit sdf pa hp lex
+    n N hn hlit st o hb c hc
 
 open XPathV.PosSem in
 /-- `position()` and `last()` as the engine computes them on a child step are the proximity
